@@ -489,6 +489,7 @@ func (m *Model) ruleOPENMODE(r *Results) {
 		name := m.declName(fn)
 		// mode == CreateNew must not reach the clone
 		okMode, okURL := false, false
+		urlCut, urlTests := newCut(), 0
 		for _, iff := range allIfs(fn) {
 			if eq, ok := m.modeTest(iff, createNew); ok {
 				if !reachableFrom(eq, nil)[clone.Block().Index] {
@@ -503,14 +504,14 @@ func (m *Model) ruleOPENMODE(r *Results) {
 					return f != nil && types.Identical(f.Type(), types.Typ[types.String]) && strings.Contains(strings.ToLower(f.Name()), "url")
 				}
 				if okx && isURLField(fx) || oky && isURLField(fy) {
-					for _, s := range iff.Block().Succs {
-						if s != eq && !reachableFrom(s, nil)[clone.Block().Index] {
-							okURL = true
-						}
-					}
+					// with the "URLs are equal" edge removed the hand-out must be unreachable: the test is
+					// made for every cached bucket, not only under some other condition
+					urlCut.cutEdge(iff.Block(), eq)
+					urlTests++
 				}
 			}
 		}
+		okURL = urlTests > 0 && !entryReach(fn, urlCut)[clone.Block().Index]
 		r.check(okMode, rule, name+" / CreateNew refuses an open bucket", m.instrPos(clone), "a cached handle is never handed out for mode CreateNew", "OpenBucket with CreateNew can return a handle to a bucket that is already open")
 		r.check(okURL, rule, name+" / other URL refused", m.instrPos(clone), "a cached handle is handed out only if the URL matches", "a bucket name that is open at another URL is not refused")
 	}
@@ -770,6 +771,31 @@ func (m *Model) ruleVIEW(r *Results) {
 				keep = true
 			}
 		}
+		// no other restriction on cas: every document above the view's mark is in the window (CAS
+		// values supplied through the *WithMeta API can lie above the collection's own mark)
+		casConj := func(conj []*sqlp.Expr) int {
+			n := 0
+			for _, c := range conj {
+				mentions := false
+				c.Walk(func(e *sqlp.Expr) {
+					if isCol(e, "cas") {
+						mentions = true
+					}
+				})
+				if mentions {
+					n++
+				}
+			}
+			return n
+		}
+		nd := 0
+		for _, c := range sqlp.Conjuncts(dst.Where) {
+			if c.Kind == sqlp.EIn && c.Sub != nil && !c.Not {
+				nd = casConj(sqlp.Conjuncts(c.Sub.Where))
+			}
+		}
+		ns := casConj(sqlp.Conjuncts(sst.Select.Where))
+		r.check(nd == 1 && ns == 1, rule, name+" / index window has no upper bound", m.instrPos(sel.Call), "the only restriction on cas is `cas > <view mark>` in both statements", "the delete and/or re-map statement restricts cas by more than the lower bound `cas > <view mark>`: documents outside the extra bound are never (re)indexed although the view's mark moves past them")
 		r.check(keep, rule, name+" / re-map filter", m.instrPos(sel.Call), "documents with a body or xattrs are re-mapped", "the re-map select's filter changed")
 		// delete precedes inserts
 		da, ia := anchor(del), anchor(ins)
